@@ -157,7 +157,8 @@ def gen_forget_slowflush(rng, n):
         prods = [{"n": rng.randint(3, 12), "pace_us": rng.choice([300, 700, 1500])} for _ in range(nprod)]
         out.append({"cap": 64, "boxed": rng.random() < 0.5, "flush_us": rng.choice([500, 1000]),
                     "flush_slow_us": rng.choice([2000, 5000, 20000]), "producers": prods, "results": {},
-                    "flushers": [], "end": "forget", "permille": 0, "kind": "forget-slowflush"})
+                    "flushers": [], "end": rng.choice(["forget", "forget_first", "forget_first"]), "permille": 0,
+                    "kind": "forget-slowflush"})
     return out
 
 
@@ -353,6 +354,9 @@ def run_wakertracker(chk, tier):
     rs = vlib.tlc(SPECD, "WakerTrackerReplay", "MC_wt_replay_deep.cfg", workers=1, simulate=(400 if tier == "quick" else 6000),
                   depth=26, seed=chk.seed, timeout=900)
     deep = vlib.replay_lines(rs)
+    rs2 = vlib.tlc(SPECD, "WakerTrackerReplay", "MC_wt_replay_never_empty.cfg", workers=1,
+                   simulate=(400 if tier == "quick" else 6000), depth=26, seed=chk.seed + 1, timeout=900)
+    deep += vlib.replay_lines(rs2)
     seen = set()
     for b in deep:
         k = json.dumps(b["steps"])
@@ -457,7 +461,7 @@ def run(prop, tier):
     if prop == "C05":
         scen += gen_forget_slowflush(rng, 6 if q else 60) + gen_flush_faults(rng, 4 if q else 40)
     if prop == "C09":
-        scen += gen_race_rounds(rng, 3 if q else 20, 150 if q else 400) + gen_count_only(rng, 3 if q else 30, 2400 if q else 12000)
+        scen += gen_race_rounds(rng, 4 if q else 24, 300 if q else 600) + gen_count_only(rng, 3 if q else 30, 2400 if q else 12000)
     for i, s in enumerate(scen):
         s["id"] = i + 1
         s.setdefault("seed", chk.seed * 100000 + i)
